@@ -107,7 +107,10 @@ func init() {
 		var wg sync.WaitGroup
 		optionSets := []regexp2.RegexOptions{0, regexp2.IgnoreCase | regexp2.IgnorePatternWhitespace, regexp2.RE2, regexp2.ECMAScript, regexp2.RightToLeft | regexp2.Multiline,
 			regexp2.ExplicitCapture | regexp2.Singleline, regexp2.ECMAScript | regexp2.Unicode, regexp2.IgnoreCase | regexp2.RightToLeft | regexp2.RE2}
-		runOne := func(toks []int, raw string, extra []string) {
+		var suspects []job
+		confirming := false
+		var runOne func(toks []int, raw string, extra []string)
+		runOne = func(toks []int, raw string, extra []string) {
 			var sb strings.Builder
 			for _, t := range toks {
 				sb.WriteString(tokenAlphabet[t%len(tokenAlphabet)])
@@ -140,7 +143,14 @@ func init() {
 				select {
 				case <-done:
 				case <-time.After(20 * time.Second):
-					report(tokMismatch{"robust.hang", pat, fmt.Sprintf("%q", pat), int(opt), call, fmt.Sprintf("%q", input), "no return within 20 s"})
+					if confirming {
+						report(tokMismatch{"robust.hang", pat, fmt.Sprintf("%q", pat), int(opt), call, fmt.Sprintf("%q", input), "no return within 20 s (twice: in the parallel run and again alone)"})
+					} else {
+						// a verdict needs a reproduction: the pattern is run again, alone, after the parallel phase
+						mu.Lock()
+						suspects = append(suspects, job{toks: toks, raw: raw, extra: extra})
+						mu.Unlock()
+					}
 					return
 				}
 				mu.Lock()
@@ -200,6 +210,10 @@ func init() {
 				compiled++
 				mu.Unlock()
 				re.MatchTimeout = 150 * time.Millisecond
+				if len(extra) > 0 {
+					// corpus and harvested patterns include the deliberately catastrophic ones of the timeout tests
+					re.MatchTimeout = 15 * time.Millisecond
+				}
 				ad := compat.Wrap(re)
 				for ii, input := range append(append([]string{}, tokenInputs...), extra...) {
 					if (h+ii)%3 != 0 && ii > 1 && ii < len(tokenInputs) {
@@ -315,7 +329,9 @@ func init() {
 		if *harvest != "" {
 			lits := harvestLiterals(*harvest)
 			for i, l := range lits {
-				if i%*hstride != *hoffset%*hstride {
+				// long pattern-like literals (the realistic patterns of the test-suite) are always taken
+				always := len(l) >= 25 && (strings.Contains(l, "\\") || strings.Contains(l, "(?") || strings.Contains(l, "["))
+				if !always && i%*hstride != *hoffset%*hstride {
 					continue
 				}
 				// inputs: derived from the pattern itself, and the literals next to it in the same file (tests keep
@@ -332,10 +348,33 @@ func init() {
 		}
 		close(work)
 		wg.Wait()
+		// re-run, one at a time, the patterns on which some call did not return in time
+		confirming = true
+		unreproduced := 0
+		seen := map[string]bool{}
+		for _, j := range suspects {
+			key := fmt.Sprint(j.toks, j.raw)
+			if seen[key] {
+				continue
+			}
+			seen[key] = true
+			before := len(mism)
+			patterns-- // counted again by runOne
+			runOne(j.toks, j.raw, j.extra)
+			hung := false
+			for _, m := range mism[before:] {
+				if m.Rule == "robust.hang" {
+					hung = true
+				}
+			}
+			if !hung {
+				unreproduced++
+			}
+		}
 		if mism == nil {
 			mism = []tokMismatch{}
 		}
-		out := map[string]any{"patterns": patterns, "compiled": compiled, "parse_errors": parseErrs, "calls": calls, "argument_errors_seen": argErrs, "mismatches": mism, "samples": samples, "ntokens": len(tokenAlphabet), "corpus_files": corpusFiles, "harvested": harvested}
+		out := map[string]any{"patterns": patterns, "compiled": compiled, "parse_errors": parseErrs, "calls": calls, "argument_errors_seen": argErrs, "mismatches": mism, "samples": samples, "ntokens": len(tokenAlphabet), "corpus_files": corpusFiles, "harvested": harvested, "slow_calls_not_reproduced": unreproduced}
 		enc := json.NewEncoder(os.Stdout)
 		enc.SetEscapeHTML(false)
 		enc.Encode(out)
